@@ -337,8 +337,9 @@ def finding_key(c, why):
     name = c.get("name") or ""
     kind = (c.get("x") or {}).get("t", "")
     if why == "panic":
+        classes = ["int-huge" if a["t"] == "int" and abs(int(a["i"])) >= (1 << 20) else k for a, k in zip(args, classes)]
         return "panic:%s%s(%s)" % (name or op, ":" + kind if op != "call" else "", ",".join(classes))
-    big = any(k.startswith("int-outside-int32") for k in classes)
+    big = any(k.startswith("int-outside") for k in classes) or (c.get("x") or {}).get("t") == "int" and argclass(c["x"]).startswith("int-outside")
     if op == "slice" and big:
         return "slice:operand-outside-int32"
     if op == "call" and big and name in ("find", "rfind", "index", "rindex", "count", "startswith", "endswith"):
@@ -401,7 +402,9 @@ def documented_difference(c):
         if c["name"] == "+" and x.get("t") == "bytes":
             return "spec.md defines concatenation for string, list and tuple only"
         if c["name"] == "*":
-            return None
+            for a in (x, args[0] if args else {}):
+                if a.get("t") == "int" and not (-(1 << 63) <= int(a["i"]) < (1 << 63)):
+                    return "repeat count beyond a machine word: CPython raises OverflowError for every operand (an implementation limit of CPython, not of the language)"
     if op == "setindex" and x.get("t") == "bytes":
         return None
     return None
@@ -497,12 +500,7 @@ def run(ctx):
         ctx.broken("correspondence:C13.Model", "model and implementation differ on %d case(s) where the specification is met, e.g. %s -> %s"
                    % (len(only_model), describe(c), show(c["obs"])))
     # the Go copy of the specification and Spec.v must agree on the shard (cross-check of the two copies)
-    go_bad = set()
-    for c in gomis:
-        t = coq_case(c)
-        if t is not None:
-            go_bad.add(t)
-    copies_differ = [refs[i] for i in range(len(terms)) if (i in bad_spec_set) != (terms[i] in go_bad) and refs[i].get("class", "").find("huge") < 0 and stats["gomis"] <= 400]
+    copies_differ = [refs[i] for i in range(len(terms)) if (i in bad_spec_set) != bool(refs[i].get("gm")) and refs[i]["obs"]["t"] != "panic"]
     if copies_differ:
         c = copies_differ[0]
         ctx.broken("oracle:Spec.v-vs-Go-copy", "the two copies of the specification disagree on %d case(s), e.g. %s (observed %s)" % (len(copies_differ), describe(c), show(c["obs"])))
@@ -518,7 +516,6 @@ def run(ctx):
     if pp.returncode != 0 or '"done"' not in pp.stdout:
         raise HarnessError("CPython oracle failed:\n" + pp.stderr[-2000:])
     py_diff = [json.loads(l) for l in pp.stdout.splitlines() if l.startswith('{"i"')]
-    gomis_keys = set(json.dumps({k: c.get(k) for k in ("op", "x", "name", "args")}, sort_keys=True) for c in gomis)
     documented = {}
     spec_vs_py = []
     py_confirms = 0
@@ -526,8 +523,7 @@ def run(ctx):
         c = allpy[d["i"]]
         if c["obs"]["t"] == "panic":
             continue
-        ck = json.dumps({k: c.get(k) for k in ("op", "x", "name", "args")}, sort_keys=True)
-        if ck in gomis_keys:
+        if c.get("gm"):
             py_confirms += 1      # CPython sides with the specification against the implementation
             continue
         why = documented_difference(c)
